@@ -311,9 +311,23 @@ def sd_units(ck, qr, numpy, ta):
                     x += b
                     x += c
                     forms["a+=b;+=c"] = x
-                want = base[0] + base[1] + base[2]
-                wl = (30.0 + 10.0 + 20.0) * R.CM2INT
+                    # an object added to itself, in place and by +
+                    y = a + b
+                    y += y
+                    forms["y=a+b;y+=y"] = y
+                    z = c.copy()
+                    z += z
+                    z += b
+                    z += z
+                    forms["z=c;z+=z;z+=b;z+=z"] = z
+                    forms["(b+b)+a"] = (b + b) + a
+                weights = {"y=a+b;y+=y": (2, 2, 0),
+                           "z=c;z+=z;z+=b;z+=z": (0, 2, 4),
+                           "(b+b)+a": (1, 2, 0)}
                 for name, f in forms.items():
+                    wa, wb, wc = weights.get(name, (1, 1, 1))
+                    want = wa * base[0] + wb * base[1] + wc * base[2]
+                    wl = (wa * 30.0 + wb * 10.0 + wc * 20.0) * R.CM2INT
                     e = float(numpy.abs(numpy.array(f.data) - want).max()) / \
                         float(numpy.abs(want).max())
                     el = abs(float(f.lamb) - wl) / wl
